@@ -35,7 +35,9 @@ def run(code, fn):
         finally:
             sys.settrace(None)
     except BaseException as e:
-        exc = [type(e).__name__, repr(e.args)[:300]]
+        import traceback
+        tb = [(f.name, f.lineno) for f in traceback.extract_tb(e.__traceback__) if f.filename == fn]
+        exc = [type(e).__name__, repr(e.args)[:300], tb]
     finally:
         sys.stdout = real
     return {"stdout": buf.getvalue(), "exc": exc, "trace": log}
